@@ -357,14 +357,18 @@ const (
 // synCase is one case of the enumerator (decoded; also the replay format).
 type synCase struct {
 	ParaRTL bool  `json:"para_rtl"`
-	Levels  []int `json:"levels"` // embedding level of run i (one rune, one glyph each)
+	Levels  []int `json:"levels"` // embedding level of run i
+	// Glyphs[i] is the number of glyphs (= runes, one cluster each) of run i; nil: one glyph per
+	// run. The glyphs of a right-to-left run are stored in visual order (descending cluster).
+	Glyphs []int `json:"glyphs,omitempty"`
 	// TruncMode 0: no truncation. 1: TruncateAfterLines = number of lines, TextContinues (truncator
 	// appended after the complete text). 2: TruncateAfterLines = 1 with a width for Split runs plus
 	// the truncator (text really truncated).
 	TruncMode int `json:"trunc_mode"`
-	// Split 0: unlimited width. j > 0: first line width = j glyph advances, later lines unlimited.
+	// Split 0: unlimited width. j > 0: first line width = j glyph advances, later lines unlimited
+	// (there is a UAX #14 break opportunity between any two glyphs, also inside a run).
 	Split int `json:"split"`
-	// WSMask bit i set: the glyph of run i is whitespace (Width 0).
+	// WSMask bit k set: the glyph of rune (cluster) k of the paragraph is whitespace (Width 0).
 	WSMask      uint `json:"ws_mask"`
 	DisableTrim bool `json:"disable_trim"`
 	// TruncOpp: the truncator run has the direction opposite to the paragraph's.
@@ -374,29 +378,45 @@ type synCase struct {
 	WrapParagraph bool `json:"wrap_paragraph"`
 }
 
-func synRuns(c synCase) (runs []shaping.Output, text []rune) {
+// synRuns builds the runs, the paragraph text and the embedding level of every rune.
+func synRuns(c synCase) (runs []shaping.Output, text []rune, runeLevels []int) {
 	n := len(c.Levels)
-	text = make([]rune, n)
 	runs = make([]shaping.Output, n)
+	off := 0
 	for i, lv := range c.Levels {
-		text[i] = synRune
-		w := fixed.I(8)
-		if c.WSMask>>uint(i)&1 == 1 {
-			w = 0
+		k := 1
+		if c.Glyphs != nil {
+			k = c.Glyphs[i]
+		}
+		rtl := lv%2 == 1
+		glyphs := make([]shaping.Glyph, k)
+		for j := 0; j < k; j++ {
+			cluster := off + j
+			if rtl {
+				cluster = off + k - 1 - j
+			}
+			w := fixed.I(8)
+			if c.WSMask>>uint(cluster)&1 == 1 {
+				w = 0
+			}
+			glyphs[j] = shaping.Glyph{
+				Width: w, Height: -fixed.I(8), YBearing: fixed.I(8), XAdvance: fixed.I(synAdv),
+				ClusterIndex: cluster, RuneCount: 1, GlyphCount: 1, GlyphID: font.GID(cluster + 1),
+			}
+			text = append(text, synRune)
+			runeLevels = append(runeLevels, lv)
 		}
 		runs[i] = shaping.Output{
-			Advance:   fixed.I(synAdv),
-			Size:      fixed.I(16),
-			Direction: dirOf(lv%2 == 1),
-			Runes:     shaping.Range{Offset: i, Count: 1},
-			Glyphs: []shaping.Glyph{{
-				Width: w, Height: -fixed.I(8), YBearing: fixed.I(8), XAdvance: fixed.I(synAdv),
-				ClusterIndex: i, RuneCount: 1, GlyphCount: 1, GlyphID: font.GID(i + 1),
-			}},
+			Advance:     fixed.I(synAdv * k),
+			Size:        fixed.I(16),
+			Direction:   dirOf(rtl),
+			Runes:       shaping.Range{Offset: off, Count: k},
+			Glyphs:      glyphs,
 			VisualIndex: synStaleVI,
 		}
+		off += k
 	}
-	return runs, text
+	return runs, text, runeLevels
 }
 
 // runSynthetic wraps one synthetic paragraph and checks every returned line. It reports whether a
@@ -426,7 +446,11 @@ func runSynthetic(t ev.TB, c synCase) (nontrivial bool) {
 			harnessBug("synthetic case with level %d below paragraph level %d", lv, e)
 		}
 	}
-	runs, text := synRuns(c)
+	if c.Glyphs != nil && len(c.Glyphs) != n {
+		harnessBug("synthetic case with %d runs and %d glyph counts", n, len(c.Glyphs))
+	}
+	runs, text, runeLevels := synRuns(c)
+	nRunes := len(text)
 	trunc := shaping.Output{
 		Advance: fixed.I(synAdv), Size: fixed.I(16), Direction: dirOf(c.ParaRTL != c.TruncOpp),
 		Glyphs:      []shaping.Glyph{{Width: fixed.I(8), XAdvance: fixed.I(synAdv), GlyphID: synTruncGID, GlyphCount: 1}},
@@ -452,12 +476,12 @@ func runSynthetic(t ev.TB, c synCase) (nontrivial bool) {
 	}
 	cx := &lineCtx{
 		paraRTL: c.ParaRTL,
-		levels:  c.Levels,
+		levels:  runeLevels,
 		isTruncator: func(run *shaping.Output) bool {
 			return c.TruncMode != 0 && len(run.Glyphs) == 1 && run.Glyphs[0].GlyphID == synTruncGID
 		},
 		glyphOf: func(cluster int) (fixed.Int26_6, bool, bool) {
-			if cluster < 0 || cluster >= n {
+			if cluster < 0 || cluster >= nRunes {
 				return 0, false, false
 			}
 			return fixed.I(synAdv), c.WSMask>>uint(cluster)&1 == 1, true
@@ -465,7 +489,7 @@ func runSynthetic(t ev.TB, c synCase) (nontrivial bool) {
 		trim: !c.DisableTrim,
 		tag:  "syn",
 	}
-	cx.fastPath = c.WrapParagraph && n == 1 && !(cfg.TextContinues && cfg.TruncateAfterLines == 1) && synAdv <= first
+	cx.fastPath = c.WrapParagraph && n == 1 && !(cfg.TextContinues && cfg.TruncateAfterLines == 1) && synAdv*nRunes <= first
 	cx.inputVisualIndex = synStaleVI
 	var w shaping.LineWrapper
 	var paraLines []shaping.Line
@@ -475,7 +499,7 @@ func runSynthetic(t ev.TB, c synCase) (nontrivial bool) {
 		w.Prepare(cfg, text, shaping.NewSliceIterator(runs))
 	}
 	width := first
-	for iter := 0; iter < n+3; iter++ {
+	for iter := 0; iter < nRunes+3; iter++ {
 		var wl shaping.WrappedLine
 		var done bool
 		if c.WrapParagraph {
@@ -498,6 +522,9 @@ func runSynthetic(t ev.TB, c synCase) (nontrivial bool) {
 			}
 			if m := len(wl.Line); m > 0 && cx.isTruncator(&wl.Line[m-1]) {
 				ev.Label("syn_line_with_truncator")
+			}
+			if c.Glyphs != nil && len(wl.Line) == 1 && (wl.Line[0].Direction.Progression() == di.TowardTopLeft) != c.ParaRTL {
+				ev.Label("syn_multi_line_lone_opposite_run")
 			}
 		}
 		if done {
@@ -598,6 +625,146 @@ func TestPropSynthetic(t *testing.T) {
 		})
 	}
 	ev.CaseEnum(total, nt)
+}
+
+// synMultiVariants runs one (level sequence, glyph counts, whitespace mask) through both APIs, with
+// and without truncator, on one line and on first-line widths of every (or, when sparse, a few)
+// glyph counts, with trimming on and off.
+func synMultiVariants(t *testing.T, rtl bool, lv, counts []int, mask uint, sparse bool, rng *ev.Rand, run func(synCase)) {
+	g := 0
+	for _, k := range counts {
+		g += k
+	}
+	base := synCase{ParaRTL: rtl, Levels: lv, Glyphs: counts, WSMask: mask}
+	splits := make([]int, 0, g)
+	if sparse {
+		splits = append(splits, 0, 1+rng.Intn(g), 1+rng.Intn(g))
+	} else {
+		for sp := 0; sp < g; sp++ {
+			splits = append(splits, sp)
+		}
+	}
+	for truncMode := 0; truncMode <= 1; truncMode++ {
+		for _, sp := range splits {
+			c := base
+			c.TruncMode, c.Split = truncMode, sp
+			run(c)
+		}
+		// WrapParagraph: unlimited, exact fit (fast path with a finite width), half
+		for _, sp := range []int{0, g, (g + 1) / 2} {
+			c := base
+			c.TruncMode, c.Split, c.WrapParagraph = truncMode, sp, true
+			run(c)
+		}
+	}
+	for _, sp := range splits {
+		if sp == 0 || sparse && sp > 1 {
+			continue
+		}
+		c := base
+		c.TruncMode, c.Split = 2, sp
+		run(c)
+	}
+	for _, wp := range []bool{false, true} {
+		c := base
+		c.DisableTrim, c.WrapParagraph = true, wp
+		run(c)
+	}
+}
+
+// TestPropSyntheticMulti: runs with several glyphs, so that "which end of which run" matters for
+// the trimming clause and lines are also cut inside runs. Exhaustive part: every level sequence of
+// 1..3 runs (levels up to 3, both paragraph directions) x two seeded tuples of glyph counts in 2..4
+// x every combination of {first glyph, last glyph} of every run being whitespace (interior glyphs
+// seeded) x {WrapNextLine, WrapParagraph (fast path included)} x truncator off/appended/truncating
+// x every first-line width x trimming on/off. Sampled part: seeded level sequences of 4..7 runs
+// with 1..4 glyphs per run and a seeded whitespace mask.
+func TestPropSyntheticMulti(t *testing.T) {
+	shard, nshards := ev.Shard()
+	rng := ev.NewRand(uint64(ev.Seed())*0x2545F491 + 77)
+	var total, nt int64
+	run := func(c synCase) {
+		total++
+		if runSynthetic(t, c) {
+			nt++
+		}
+		if total%20011 == 0 {
+			ev.Sample(c)
+		}
+	}
+	seqNo := 0
+	enumerate(3, 3, func(rtl bool, levels []int) {
+		seqNo++
+		mine := seqNo%nshards == shard
+		n := len(levels)
+		lv := append([]int(nil), levels...)
+		for rep := 0; rep < 2; rep++ {
+			// the generator state advances identically in every shard
+			counts := make([]int, n)
+			g := 0
+			for i := range counts {
+				counts[i] = 2 + rng.Intn(3)
+				g += counts[i]
+			}
+			interior := uint(rng.Uint64())
+			if !mine {
+				continue
+			}
+			for ends := 0; ends < 1<<uint(2*n); ends++ {
+				mask := uint(0)
+				off := 0
+				for i, k := range counts {
+					for j := 1; j < k-1; j++ {
+						mask |= interior >> uint(off+j) & 1 << uint(off+j)
+					}
+					if ends>>uint(2*i)&1 == 1 {
+						mask |= 1 << uint(off)
+					}
+					if ends>>uint(2*i+1)&1 == 1 {
+						mask |= 1 << uint(off+k-1)
+					}
+					off += k
+				}
+				synMultiVariants(t, rtl, lv, counts, mask, false, rng2(ev.Seed(), seqNo, rep, ends), run)
+			}
+		}
+	})
+	ev.CaseEnum(total, nt)
+	// sampled longer sequences (may repeat: counted distinct by key)
+	nSample := ev.Scale(1500, 40000)
+	for s := 0; s < nSample; s++ {
+		rtl := rng.Intn(2) == 1
+		e := 0
+		if rtl {
+			e = 1
+		}
+		n := 4 + rng.Intn(4)
+		lv := make([]int, n)
+		counts := make([]int, n)
+		g := 0
+		for i := range lv {
+			lv[i] = e + rng.Intn(4-e)
+			counts[i] = 1 + rng.Intn(4)
+			g += counts[i]
+		}
+		mask := uint(rng.Uint64()) & (1<<uint(g) - 1)
+		if rng.Intn(4) == 0 {
+			mask = 1<<uint(g) - 1
+		}
+		sub := rng2(ev.Seed(), -1, s, 0)
+		if s%nshards != shard {
+			continue
+		}
+		synMultiVariants(t, rtl, lv, counts, mask, true, sub, func(c synCase) {
+			ev.Case(runSynthetic(t, c), fmt.Sprintf("%+v", c))
+		})
+	}
+}
+
+// rng2 derives an independent deterministic generator for one enumerated item, so that every shard
+// sees the same values whatever part of the space it skips.
+func rng2(seed int64, a, b, c int) *ev.Rand {
+	return ev.NewRand(uint64(seed)*0x9E3779B97F4A7C15 ^ uint64(a+2)*0xC2B2AE3D27D4EB4F ^ uint64(b+1)*0x165667B19E3779F9 ^ uint64(c+1)*0x27D4EB2F165667C5)
 }
 
 // ---------------------------------------------------------------------------------------------
@@ -726,6 +893,7 @@ func runPipeline(t ev.TB, c pipeCase) {
 	}
 	classes := make([]uaxref.BidiClass, len(text))
 	firstStrong := uaxref.BidiWS
+	onlyRAndSpace := true
 	for i, r := range text {
 		cl, ok := uaxref.MiniBidiClass(r)
 		if !ok {
@@ -735,15 +903,30 @@ func runPipeline(t ev.TB, c pipeCase) {
 		if firstStrong == uaxref.BidiWS && (cl == uaxref.BidiL || cl == uaxref.BidiR) {
 			firstStrong = cl
 		}
+		if cl == uaxref.BidiL || cl == uaxref.BidiEN {
+			onlyRAndSpace = false
+		}
 	}
-	if !c.ParaRTL && firstStrong == uaxref.BidiR {
-		// x/text treats Input.Direction LTR as a default that the first strong character overrides
-		// (P2/P3); the generator constructs LTR paragraphs whose first strong character is L.
-		harnessBug("LTR paragraph whose first strong character is R: %q", string(text))
-	}
+	// Level at which itemization resolves the paragraph. Segmenter.splitByBidi passes
+	// Input.Direction to x/text as bidi.DefaultDirection: right-to-left forces paragraph level 1,
+	// but left-to-right is only a default that the first strong character overrides (rules P2/P3).
 	e := 0
 	if c.ParaRTL {
 		e = 1
+	}
+	if !c.ParaRTL && firstStrong == uaxref.BidiR {
+		// Input.Direction = WrapConfig.Direction = LTR but x/text resolves the levels of an RTL
+		// paragraph. With L words or numbers present, the order the levels demand and the order
+		// WrapConfig.Direction demands differ (itemization's business, not generated). With Hebrew
+		// words and spaces only, every rune is at level 1 whichever way the paragraph is read (one
+		// right-to-left embedding; the spaces join it because x/text resolves them in an RTL
+		// paragraph), so the run order and, through WrapConfig.Direction, the trimming clause are
+		// well defined: such a paragraph is the "lone opposite-direction run" of an LTR line.
+		if !onlyRAndSpace {
+			harnessBug("LTR paragraph whose first strong character is R and that contains L or EN: %q", string(text))
+		}
+		e = 1
+		ev.Label("pipe_para_ltr_config_resolved_rtl")
 	}
 	levels := uaxref.MiniBidiLevels(classes, e, true)
 	crossCheckXText(text, c.ParaRTL, levels)
@@ -857,6 +1040,12 @@ func runPipeline(t ev.TB, c pipeCase) {
 			if m := len(wl.Line); cx.isTruncator(&wl.Line[m-1]) {
 				ev.Label("pipe_line_with_truncator")
 			}
+			if len(wl.Line) == 1 && (wl.Line[0].Direction.Progression() == di.TowardTopLeft) != c.ParaRTL {
+				ev.Label("pipe_line_lone_opposite_run")
+				if cx.fastPath {
+					ev.Label("pipe_line_lone_opposite_run_fastpath")
+				}
+			}
 		}
 		if done {
 			break
@@ -918,6 +1107,9 @@ func (s splitFaces) ResolveFace(r rune) *font.Face {
 
 // genPipeCase builds a paragraph from units {L word, R word (Hebrew), European number, spaces}.
 func genPipeCase(t *rapid.T) pipeCase {
+	if rapid.IntRange(0, 4).Draw(t, "mono") == 0 {
+		return genMonoCase(t)
+	}
 	c := pipeCase{FontIndex: 0}
 	c.Font = rapid.SampledFrom(pipeFonts).Draw(t, "font")
 	c.SplitFaces = rapid.Bool().Draw(t, "split_faces")
@@ -1006,6 +1198,60 @@ func genPipeCase(t *rapid.T) pipeCase {
 	return c
 }
 
+// genMonoCase builds a paragraph whose words all have the same direction: 1..3 Latin words or 1..3
+// Hebrew words, with 0..2 leading and trailing spaces, in a paragraph of the same or of the
+// opposite direction, mostly at a width that holds everything (single-run paragraphs take the
+// fast path of WrapParagraph). Levels by construction:
+//   - RTL paragraph (forced by Input.Direction), Latin only: words and inner spaces at level 2,
+//     leading/trailing spaces at level 1 (N2, L1): not "deep" (2 = paragraph level + 1);
+//   - LTR paragraph, Hebrew only: x/text resolves an RTL paragraph (first strong character),
+//     everything at level 1: one right-to-left run on a left-to-right line (see runPipeline);
+//   - same direction: everything at the paragraph level, a single run with spaces at its ends.
+func genMonoCase(t *rapid.T) pipeCase {
+	c := pipeCase{FontIndex: 0}
+	c.Font = rapid.SampledFrom(pipeFonts).Draw(t, "font")
+	c.ParaRTL = rapid.Bool().Draw(t, "para_rtl")
+	alpha := alphaLatin
+	if rapid.Bool().Draw(t, "hebrew_words") {
+		alpha = alphaHebrew
+	}
+	// one half of the alphabet only: SplitFaces then never splits the words into several runs
+	half := rapid.IntRange(0, 1).Draw(t, "half")
+	c.SplitFaces = rapid.IntRange(0, 3).Draw(t, "split_faces") == 0
+	var text []rune
+	spaces := func(label string, lo int) {
+		for k := rapid.IntRange(lo, 2).Draw(t, label); k > 0; k-- {
+			text = append(text, ' ')
+		}
+	}
+	spaces("lead_spaces", 0)
+	nWords := rapid.IntRange(1, 3).Draw(t, "words")
+	for i := 0; i < nWords; i++ {
+		if i > 0 {
+			spaces("inner_spaces", 1)
+		}
+		text = append(text, rapid.SliceOfN(rapid.SampledFrom(alpha[half]), 1, 4).Draw(t, "word")...)
+	}
+	spaces("trail_spaces", 0)
+	c.Text = runesToInts(text)
+	full := 11*len(text) + 20
+	if rapid.IntRange(0, 2).Draw(t, "fits") > 0 {
+		c.Widths = []int{full + rapid.IntRange(0, 50).Draw(t, "slack")}
+	} else {
+		for i := rapid.IntRange(1, 2).Draw(t, "nwidths"); i > 0; i-- {
+			c.Widths = append(c.Widths, rapid.IntRange(8, full).Draw(t, "width"))
+		}
+	}
+	if rapid.IntRange(0, 3).Draw(t, "truncating") == 0 {
+		c.TruncateAfterLines = rapid.IntRange(1, 2).Draw(t, "truncate_after")
+		c.TextContinues = rapid.Bool().Draw(t, "text_continues")
+	}
+	c.BreakPolicy = rapid.SampledFrom([]int{0, 0, 1, 2}).Draw(t, "break_policy")
+	c.DisableTrim = rapid.IntRange(0, 7).Draw(t, "disable_trim") == 0
+	c.WrapParagraph = rapid.Bool().Draw(t, "wrap_paragraph")
+	return c
+}
+
 // TestPropPipeline: by-construction paragraphs through Split → Shape → Wrap at random widths.
 func TestPropPipeline(t *testing.T) {
 	rapid.Check(t, func(t *rapid.T) {
@@ -1024,6 +1270,11 @@ var knownPipeExamples = []pipeCase{
 	// minimal example of C08-fastpath-no-trim: one run that fits, trailing space
 	{Font: pipeFonts[0], ParaRTL: false, Text: runesToInts([]rune("abc ")), Widths: []int{10000}, WrapParagraph: true},
 	{Font: pipeFonts[0], ParaRTL: true, Text: runesToInts([]rune("אבג ")), Widths: []int{10000}, WrapParagraph: true},
+	// a lone run of the direction opposite to the paragraph's, spaces at both ends of the run
+	{Font: pipeFonts[0], ParaRTL: false, Text: runesToInts([]rune(" אבג  ")), Widths: []int{10000}, WrapParagraph: true},
+	{Font: pipeFonts[0], ParaRTL: false, Text: runesToInts([]rune("  אבג דה ")), Widths: []int{10000}},
+	{Font: pipeFonts[1], ParaRTL: true, Text: runesToInts([]rune("abc de")), Widths: []int{10000}, WrapParagraph: true},
+	{Font: pipeFonts[1], ParaRTL: true, Text: runesToInts([]rune(" abc de ")), Widths: []int{45, 10000}},
 }
 
 // TestPropExamples runs the fixed examples (part of the synthetic job).
